@@ -337,3 +337,59 @@ pub fn check_with(
     }
     Ok(())
 }
+
+/// (layer, vector bits, per layer the edges (id, cached distance bits)) of one node.
+type NodeImage = (u8, Vec<u16>, Vec<Vec<(u64, u16)>>);
+
+fn node_image(index: &anda_db_hnsw::HnswIndex, id: u64) -> Option<NodeImage> {
+    index
+        .get_node_with(id, |n| {
+            (
+                n.layer,
+                n.vector.iter().map(|x| x.to_bits()).collect(),
+                n.neighbors.iter().map(|l| l.iter().map(|(i, d)| (*i, d.to_bits())).collect()).collect(),
+            )
+        })
+        .ok()
+}
+
+/// "Nothing pending implies the durable image IS the live index": `loaded`
+/// (built by `load_all` from the image) must hold the id set of `live` and,
+/// for every id, the same stored vector, layer and adjacency lists — what a
+/// node blob carries. Read through the public `node_ids` / `get_node_with`.
+pub fn same_graph(live: &anda_db_hnsw::HnswIndex, loaded: &anda_db_hnsw::HnswIndex) -> Result<(), Fail> {
+    // "metadata saved" (`has_pending_metadata_flush() == false`) means the durable metadata is the
+    // live generation: same logical version, same top layer
+    let (ms, ml) = (live.metadata().stats, loaded.metadata().stats);
+    if (ms.version, ms.max_layer) != (ml.version, ml.max_layer) {
+        return Err(Fail::new(
+            "durable_metadata_differs",
+            format!(
+                "has_pending_metadata_flush() is false on the live index (metadata version {}, max_layer {}), yet the durable metadata loads as version {}, max_layer {}",
+                ms.version, ms.max_layer, ml.version, ml.max_layer
+            ),
+        ));
+    }
+    let (a, b) = (live.node_ids(), loaded.node_ids());
+    if a != b {
+        return Err(Fail::new(
+            "durable_ids_differ",
+            format!("nothing is pending on the live index (no dirty node, metadata saved), yet the image loads with ids {b:?} while the live index holds {a:?}"),
+        ));
+    }
+    for id in a {
+        let (x, y) = (node_image(live, id), node_image(loaded, id));
+        if x != y {
+            let what = match (&x, &y) {
+                (Some(x), Some(y)) if x.1 != y.1 => "durable_vector_differs",
+                (Some(_), Some(_)) => "durable_edges_differ",
+                _ => "durable_node_missing",
+            };
+            return Err(Fail::new(
+                what,
+                format!("nothing is pending on the live index, yet node {id} differs: live (layer, vector bits, edges) = {x:?}, loaded from the image = {y:?}"),
+            ));
+        }
+    }
+    Ok(())
+}
